@@ -45,6 +45,26 @@ def parse_summary(path):
     return d
 
 
+def vm_cross_check(ctx, drv, out, n, extra_targets):
+    """DESIGN 3.3: a sample of the cases with their OBSERVED outputs is written as Coq terms by the
+    driver and the model is evaluated inside Coq with vm_compute; every check must be true."""
+    ok, log = vlib.coq_build(targets=extra_targets)
+    vfile = os.path.join(ctx.scratch, "sample_%s.v" % PID)
+    vlib.sh([drv, out, "--coq", vfile, str(n)], timeout=1200)
+    if not ok or not os.path.exists(vfile):
+        return {"status": "not-run", "detail": (log or "")[-300:]}
+    with vlib.Lock("coq"):
+        rc, res = vlib.sh(["coqc", "-R", vlib.COQ, "Acme", vfile], cwd=ctx.scratch, timeout=1800)
+    m = re.search(r"M =\s*\[([^\]]*)\]", res.replace("\n", " "))
+    vals = [v.strip() for v in m.group(1).split(";")] if m and m.group(1).strip() else []
+    good = rc == 0 and vals and all(v == "true" for v in vals)
+    if not good:
+        ctx.violation("%s-vm-compute-cross-check" % PID.lower(),
+                      "the model evaluated inside Coq (vm_compute) disagrees with the observed outputs of the sample, or the sample "
+                      "does not compile: %s" % res[-600:], {"coqc_output": res[-3000:]}, found_input=False)
+    return {"status": "ok" if good else "FAILED", "checks": len(vals), "all_true": bool(good)}
+
+
 def run(ctx):
     ctx.level = "proof"
     status = vlib.proof_status(PID, extra_targets=["C16/Extract.v"])
@@ -124,6 +144,7 @@ def run(ctx):
                        "(restriction of the comparison, not of the export call)",
                        "String() renderings are checked for totality (no panic, non-empty) by the run only"]
     if ctx.tier == "thorough":
+        ctx.coverage["vm_compute_cross_check"] = vm_cross_check(ctx, exe, out, 6, ["C16/ModelChk.v"])
         ok, chk = vlib.coqchk(PID)
         ctx.coverage["coqchk"] = "ok" if ok else "FAILED"
         ctx.coverage["coqchk_tail"] = chk[-1500:]
